@@ -287,7 +287,9 @@ fn band_set(r: &mut Rng) -> Vec<Vec<[f64; 2]>> {
 pub struct Affine { sx: f64, sy: f64, tx: f64, ty: f64 }
 impl Affine {
     fn random(r: &mut Rng) -> Affine {
-        let e = |r: &mut Rng| -> i32 { match r.below(4) { 0 => 0, 1 => r.range(0, 60) as i32, 2 => -(r.range(0, 60) as i32), _ => *r.pick(&[-52, -50, -48, -45, 45, 48, 50, 52]) } };
+        // (exponents up to +-500 per axis keep every gradient of a 12-wide lattice, at most 2^1004, inside the normal
+        // binary64 range; beyond that gradients overflow or underflow and the unchanged crate fails: known findings)
+        let e = |r: &mut Rng| -> i32 { if r.chance(0.1) { return *r.pick(&[-500, -450, -300, 300, 450, 500]); } match r.below(4) { 0 => 0, 1 => r.range(0, 60) as i32, 2 => -(r.range(0, 60) as i32), _ => *r.pick(&[-52, -50, -48, -45, 45, 48, 50, 52]) } };
         let k = |r: &mut Rng| -> f64 { match r.below(4) { 0 | 1 => 0.0, 2 => (r.range(-1000000, 1000000)) as f64, _ => { let m = 2f64.powi(r.range(20, 45) as i32); if r.chance(0.5) { m } else { -m } } } };
         let (sx, sy) = (2f64.powi(e(r)), 2f64.powi(e(r)));
         Affine { sx, sy, tx: sx * k(r), ty: sy * k(r) }
@@ -329,7 +331,7 @@ fn special_coords(r: &mut Rng) -> Vec<Vec<[f64; 2]>> {
 
 pub fn run(o: &Opts) -> Report {
     let rep = Mutex::new(Report::new("tri"));
-    rep.lock().unwrap().rule = "EXHAUSTIVE: every vertex sequence (repeats, collinear, self-intersecting included) of 3..N points on the 4x4 integer lattice as a single polygon (N=6: 17.9M sequences, both tiers); plus structured valid sets (L, U, plus, T, comb, spiral, star, zigzag, rectangles with holes, holes with islands to depth 4, side-by-side components) under all dihedral maps, integer scalings/shears/translations, reversals, start-vertex rotations and polygon permutations; random multi-polygon soups on lattices up to 10x10; NaN/inf/-0/subnormal/1e300 coordinates; empty and short inputs. Non-trivial = passes input validation (>= 3 distinct finite vertices per polygon); distinct by construction of the enumeration".into();
+    rep.lock().unwrap().rule = "EXHAUSTIVE: every vertex sequence (repeats, collinear, self-intersecting included) of 3..N points on the 4x4 integer lattice as a single polygon (N=6: 17.9M sequences, both tiers); plus structured valid sets (L, U, plus, T, comb, spiral, star, zigzag, rectangles with holes, holes with islands to depth 4, side-by-side components) under all dihedral maps, integer scalings/shears/translations, reversals, start-vertex rotations and polygon permutations; random multi-polygon soups on lattices up to 10x10; star-shaped polygons; stacked bands of 5..10 small polygons on a 12-wide lattice (up to 20 simultaneously active edges, many shared abscissae); exact axis-wise affine images v*2^e + t (e in -60..60 per axis incl. aspect ratios 2^45..2^120, translations up to 2^45 steps; the answer is mapped back exactly and judged on the lattice); zeros written as -0.0; NaN/inf/-0/subnormal/1e300 coordinates; empty and short inputs; two fixed overflow inputs (known findings). Non-trivial = passes input validation (>= 3 distinct finite vertices per polygon); distinct by construction of the enumeration".into();
     let counts = Counts::default();
     if let Some(t) = &o.replay {
         // single input: `cavh tri --replay "[[[x,y],...],...]"` prints the implementation's answer and judges it
@@ -419,7 +421,8 @@ pub fn run(o: &Opts) -> Report {
         let mut done = 0u64;
         for i in 0..n_aff {
             let base: Vec<Vec<[f64; 2]>> = match i % 4 { 0 => bases[rng.below(bases.len() as u64) as usize].1.clone(), 1 => star_set(&mut rng), 2 => band_set(&mut rng), _ => random_soup(&mut rng) };
-            let a = Affine::random(&mut rng);
+            let mut a = Affine::random(&mut rng);
+            if let Ok(v) = std::env::var("CAVH_AFFINE_FIXED") { let e: Vec<i32> = v.split(',').map(|t| t.parse().unwrap()).collect(); a = Affine { sx: 2f64.powi(e[0]), sy: 2f64.powi(e[1]), tx: 0.0, ty: 0.0 }; }
             if !a.exact_on(&base) { continue; }
             let mapped: Vec<Vec<[f64; 2]>> = base.iter().map(|p| p.iter().map(|v| a.fwd(*v)).collect()).collect();
             let out = run_impl(&mapped);
@@ -440,12 +443,39 @@ pub fn run(o: &Opts) -> Report {
         let f = |v: &[(i64, i64)]| -> Vec<[f64; 2]> { v.iter().map(|p| [p.0 as f64, p.1 as f64]).collect() };
         let big = Affine { sx: 2f64.powi(1023), sy: 2f64.powi(1023), tx: 0.0, ty: 0.0 };
         let tall = Affine { sx: 1.0, sy: 2f64.powi(1023), tx: 0.0, ty: 0.0 };
-        for (a, base) in [(big, vec![f(&[(-1, -1), (1, -1), (1, 1), (-1, 1)])]), (tall, vec![f(&[(0, -1), (1, 1), (2, -1)])])] {
+        // the same cause one step earlier: an aspect ratio of 2^1060 makes every gradient of the image overflow
+        let thin = Affine { sx: 2f64.powi(-530), sy: 2f64.powi(530), tx: 0.0, ty: 0.0 };
+        for (a, base) in [(big, vec![f(&[(-1, -1), (1, -1), (1, 1), (-1, 1)])]), (tall, vec![f(&[(0, -1), (1, 1), (2, -1)])]),
+                          (thin, vec![f(&[(4, 1), (7, 5), (4, 3)])]), (thin, vec![f(&[(3, 0), (0, 0), (3, 2), (0, 2)])])] {
             let mapped: Vec<Vec<[f64; 2]>> = base.iter().map(|p| p.iter().map(|v| a.fwd(*v)).collect()).collect();
             let out = run_impl(&mapped);
             { let mut r = rep.lock().unwrap(); r.cases += 1; r.count("gen:overflow-corpus"); }
             judge_shown(&base, &a.out_back(&out), &rep, &counts, Some(&text(&mapped)));
         }
+    }
+    // mixed scales inside one input: two thin triangles over a base of length X = 2^a whose long edges differ in
+    // height by t = 2^-b only, so that their gradients t/X underflow to +-0.0 (a + b > 1074) or are subnormal; the long
+    // edges cross properly at X/3 (must be rejected) or are parallel translates (valid, must be accepted)
+    for i in 0..(if o.thorough { 20000 } else { 3000 }) {
+        let a = rng.range(0, 700) as i32; let b = rng.range(3, 700) as i32;
+        let (x, t) = (2f64.powi(a), 2f64.powi(-b));
+        let crossing = i % 2 == 0;
+        let mut p1 = vec![[0.0, 0.0], [x, 2.0 * t], [x / 2.0, -1.0]];
+        let mut p2 = if crossing { vec![[0.0, t], [x, 0.0], [x / 2.0, 1.0]] } else { vec![[0.0, t], [x, 3.0 * t], [x / 2.0, 1.0]] };
+        if rng.chance(0.5) { p1.reverse(); } if rng.chance(0.5) { p2.reverse(); }
+        let k1 = rng.below(3) as usize; p1.rotate_left(k1); let k2 = rng.below(3) as usize; p2.rotate_left(k2);
+        let polys = if rng.chance(0.5) { vec![p1, p2] } else { vec![p2, p1] };
+        let out = run_impl(&polys);
+        { let mut r = rep.lock().unwrap(); r.cases += 1; r.count("gen:mixed-scale"); r.count(&format!("impl:{}", out.class())); }
+        match (&out, crossing) {
+            (TOut::Ok(ts), true) => { counts.crossing_accepted.fetch_add(1, Ordering::Relaxed); rep.lock().unwrap().finding("oracle", &["C16"], "crossing-accepted", format!("tri {}", text(&polys)), format!("{} triangles", ts.len())); }
+            (TOut::Overlap(k, p), false) => { counts.valid_rejected.fetch_add(1, Ordering::Relaxed); rep.lock().unwrap().finding("oracle", &["C04"], "valid-rejected", format!("tri {}", text(&polys)), format!("Overlap({}, ({},{}))", k, p[0], p[1])); }
+            (TOut::Panic(m), _) => { rep.lock().unwrap().finding("oracle", &["C15"], &format!("panic-{}", panic_class(m)), format!("tri {}", text(&polys)), m.clone()); }
+            (TOut::Ok(ts), false) => { if ts.len() != 2 { rep.lock().unwrap().finding("oracle", &["C03"], "not-a-tiling", format!("tri {}", text(&polys)), format!("{} triangles for two triangles", ts.len())); } }
+            _ => {}
+        }
+        if crossing { counts.crossing.fetch_add(1, Ordering::Relaxed); } else { counts.valid.fetch_add(1, Ordering::Relaxed); if matches!(out, TOut::Ok(_)) { counts.valid_ok.fetch_add(1, Ordering::Relaxed); } }
+        if rng.chance(0.1) { model_reqs.lock().unwrap().push((request(&polys), out.wire(), text(&polys))); }
     }
     extra.push(("empty", vec![]));
     extra.push(("empty-poly", vec![vec![]]));
